@@ -19,7 +19,11 @@ EXPLANATION = (
     "(The exit(0) of MinFlowDecomp on an unsolved MinGenSet model, mfd_refuted_exit, was repaired "
     "in /repo 78680dc; the exclusive upper end of the k-ranges in 67a34b1: all three switches are off in the faithful model.) Inconclusive statuses in the guessed-weights model are not required to stop the search: "
     "the theorem proved instead is that a Solved k stays certified (mfd_search_sound). Tie: E4, exhaustive over positions x injected "
-    "statuses per input; the property is also evaluated directly on every run of the implementation.")
+    "statuses per input; the property is also evaluated directly on every run of the implementation. Repeated calls: after every "
+    "run that an injected inconclusive status ended unsolved, solve() is called again on the SAME object without injection and must give "
+    "the natural answer; the model of that call is fd_resolve (state = cached lower bound + kept guessed-weights model; theorems "
+    "failed_run_leaves_no_trace, resolve_is_fresh_run); MinPathCover[Cycles] and MinGenSet loops are stateless functions of the status "
+    "sequence (their cached lower bound needs no solver) and the second call is compared with the same machine.")
 ASSUMPTIONS = [
     "only the logic that consumes the solver status is covered: real SIGALRM delivery, HiGHS' own time-limit handling and the Gurobi branch are not modelled or exercised",
     "statuses are injected after the real solve has run (the solver holds a genuine solution when the inconclusive status is reported)",
@@ -210,15 +214,21 @@ def getters(m, count_solution):
 
 class Spec:
     """One (class, input, options) combination: how to build it, how to ask the model."""
-    def __init__(self, cls, inp, opts, build, request, count, chosen, p2=True):
+    def __init__(self, cls, inp, opts, build, request, count, chosen, p2=True, state=None, request2=None):
         self.cls = cls; self.inp = inp; self.opts = opts; self.build = build; self.request = request
         self.count = count; self.chosen = chosen; self.p2 = p2
+        self.state = state or (lambda m: None)                      # what a later solve() on the same object starts from
+        self.request2 = request2 or (lambda obs, st: request(obs))  # model request for that later call
 
 
-def observe(tap, spec, inject, over_after=None):
+def observe(tap, spec, inject, over_after=None, again=None):
+    """again = an earlier observation: solve() is called once more on the SAME object."""
     tap.reset(inject, over_after)
-    m = spec.build()
-    pre = getters(m, spec.count)
+    if again is None:
+        m = spec.build(); state = None
+        pre = getters(m, spec.count)
+    else:
+        m = again["m"]; state = spec.state(m); pre = None
     try:
         r = m.solve(); outcome = "S" if r else "N"
         if r not in (True, False):
@@ -246,7 +256,13 @@ def observe(tap, spec, inject, over_after=None):
             obs["chosen_solved"] = bool(ch.is_solved()) if ch is not m else True
         except Exception as e:
             obs["chosen_solved"] = "R:" + repr(e)
-    obs["req"] = spec.request(obs)          # parameters that depend on the run are read now
+    try:
+        obs["lbk"] = m.get_lowerbound_k() if hasattr(m, "get_lowerbound_k") and spec.cls != "NumPathsOptimization" else None
+    except BaseException:
+        obs["lbk"] = None
+    if len(tap.log) != len(log):              # reading the cached lower bound must not call the solver
+        obs["lbk"] = "solver-called"
+    obs["req"] = spec.request(obs) if again is None else spec.request2(obs, state)   # run-dependent parameters are read now
     return obs
 
 
@@ -290,8 +306,19 @@ def spec_mfd(fp, edges, opts):
             gw = len(gwm.get_solution(remove_empty_paths=True)["paths"])
         return "mfd " + common.toks(SWITCH[K_MGS], SWITCH[K_EXIT], UPPER_EXCL, lb0, ne, bool(opts.get("use_min_gen_set_lowerbound")), nw, cuts,
                                     bool(opts.get("optimize_with_guessed_weights")), gw, len(gr), gr, raw_toks(obs["log"]))
+    def state(m):
+        gwm = getattr(m, "_given_weights_model", None)
+        g0 = len(gwm.get_solution(remove_empty_paths=True)["paths"]) if gwm is not None and gwm.is_solved() else None
+        return (m.get_lowerbound_k(), g0)
+
+    def request2(obs, st):
+        lb, g0 = st; m = obs["m"]; gwm = getattr(m, "_given_weights_model", None); gw = 0
+        if gwm is not None and gwm.is_solved():
+            gw = len(gwm.get_solution(remove_empty_paths=True)["paths"])
+        return "fd2 " + common.toks(UPPER_EXCL, lb, ne, bool(opts.get("optimize_with_guessed_weights")), gw,
+                                    g0 is not None, g0 or 0, len(gr), gr, 0, raw_toks(obs["log"]))
     return Spec("MinFlowDecomp", {"edges": edges}, opts, build, request,
-                lambda s: len(s["paths"]), lambda m: m.fd_model)
+                lambda s: len(s["paths"]), lambda m: m.fd_model, state=state, request2=request2)
 
 
 def spec_mfdc(fp, edges, opts, timed):
@@ -315,8 +342,19 @@ def spec_mfdc(fp, edges, opts, timed):
         ov = [oa is not None and n >= oa for n in range(obs["used"] + 2)]
         return "mfdc " + common.toks(SWITCH[K_MGS], UPPER_EXCL, lb0, ne, bool(opts.get("use_min_gen_set_lowerbound")), nw,
                                      bool(opts.get("optimize_with_guessed_weights")), gw, len(ov), ov, raw_toks(obs["log"]))
+    def state(m):
+        gwm = getattr(m, "_given_weights_model", None)
+        g0 = len(gwm.get_solution(remove_empty_walks=True)["walks"]) if gwm is not None and gwm.is_solved() else None
+        return (m.get_lowerbound_k(), g0)
+
+    def request2(obs, st):
+        lb, g0 = st; m = obs["m"]; gwm = getattr(m, "_given_weights_model", None); gw = 0
+        if gwm is not None and gwm.is_solved():
+            gw = len(gwm.get_solution(remove_empty_walks=True)["walks"])
+        return "fd2 " + common.toks(UPPER_EXCL, lb, ne, bool(opts.get("optimize_with_guessed_weights")), gw,
+                                    g0 is not None, g0 or 0, 0, 0, raw_toks(obs["log"]))
     return Spec("MinFlowDecompCycles", {"edges": edges, "timed": timed}, opts, build, request,
-                lambda s: len(s["walks"]), lambda m: m.fd_model)
+                lambda s: len(s["walks"]), lambda m: m.fd_model, state=state, request2=request2)
 
 
 def spec_mpc(fp, edges, cyc):
@@ -411,7 +449,7 @@ def property_failures(spec, obs, nat):
     """C13 evaluated directly on one run of the implementation.  Returns list of (what, position, phase)."""
     bad = []; log = obs["log"]; out = obs["outcome"]; post = obs["post"]; pre = obs["pre"]
     # getters before solve raise, is_solved() returns False (NumPathsOptimization too, since /repo c4fc05d)
-    if pre["is_solved"] != "F" or pre["get_solution"] != "R" or pre.get("get_objective_value", "R") != "R":
+    if pre is not None and (pre["is_solved"] != "F" or pre["get_solution"] != "R" or pre.get("get_objective_value", "R") != "R"):
         bad.append(("before solve(): is_solved/get_solution/get_objective_value gave " + repr(pre), None, "pre"))
     # solve() result, is_solved() and the getters agree
     if out == "S":
@@ -475,6 +513,9 @@ def compare(obs, mod, spec):
             diffs.append(("k", k, mod["k"]))
     if spec.cls in ("MinFlowDecomp", "MinFlowDecompCycles") and mod.get("aux") != obs["aux"] and obs["outcome"] != "V":
         diffs.append(("aux", obs["aux"], mod.get("aux")))
+    if spec.cls in ("MinFlowDecomp", "MinFlowDecompCycles", "MinPathCover", "MinPathCoverCycles") and obs["outcome"] in ("S", "N") \
+            and obs.get("lbk") != mod.get("lbk"):
+        diffs.append(("lowerbound_k after the run", obs.get("lbk"), mod.get("lbk")))
     if obs["mismatch"]:
         diffs.append(("get_model_status", obs["mismatch"][:3], "did_timeout => kTimeLimit else native"))
     return diffs
@@ -508,8 +549,17 @@ def run_spec(ctx, tap, spec, extend=2, timed=False, label=""):
     runs = []
     nat = observe(tap, spec, {})
     runs.append(nat)
+    again = []
     for inj, oa in injection_plans(nat["log"], spec, extend, timed):
-        runs.append(observe(tap, spec, inj, oa))
+        o = observe(tap, spec, inj, oa)
+        runs.append(o)
+        # solve() once more on the SAME object, without injection, after a run that an inconclusive status ended unsolved
+        if spec.p2 and o["outcome"] == "N" and oa is None and \
+                any(not conclusive(reported(e)) for e in o["log"]) and not any(v == "kInfeasible" for v in inj.values()):
+            o2 = observe(tap, spec, {}, None, again=o)
+            o2["inject"] = {"first_call": {str(k): v for k, v in inj.items()}}; o2["second_call"] = True
+            again.append(o2)
+    runs += again
     reqs = [o["req"] for o in runs]
     mods = [parse_res(l) for l in ctx.model.run(reqs)]
     eng = "E4_" + spec.cls
@@ -518,17 +568,26 @@ def run_spec(ctx, tap, spec, extend=2, timed=False, label=""):
         diffs = compare(o, mod, spec)
         agrees = not diffs
         seq = [[e["tag"], e["native"], e["custom"]] for e in o["log"]]
-        canon = [spec.cls, spec.inp, spec.opts, sorted(o["inject"].items()), o["over_after"]]
-        consumed_inj = any(p < o["used"] and s != "kInfeasible" for p, s in o["inject"].items())
+        second = bool(o.get("second_call"))
+        canon = [spec.cls, spec.inp, spec.opts, sorted(o["inject"].items(), key=str), o["over_after"], second]
+        consumed_inj = second or any(p < o["used"] and s != "kInfeasible" for p, s in o["inject"].items())
         ctx.case(canon, nontrivial=bool(consumed_inj or o["over_after"]),
                  sample={"class": spec.cls, "input": spec.inp, "options": spec.opts, "inject": {str(k): v for k, v in o["inject"].items()},
                          "statuses": seq, "impl": [o["outcome"], o["k"], o["used"]], "model": mod})
         ctx.count(eng, "runs"); ctx.count(eng, "agreements" if agrees else "disagreements")
+        if second:
+            ctx.count(eng, "second_solve_calls")
         ctx.dist("%s:invocations=%d" % (spec.cls, o["used"]))
         replay = {"class": spec.cls, "input": spec.inp, "options": spec.opts, "inject": {str(k): v for k, v in o["inject"].items()},
-                  "over_after": o["over_after"], "statuses": seq, "impl": {"outcome": o["outcome"], "k": o["k"], "invocations": o["used"],
+                  "over_after": o["over_after"], "second_call": second, "statuses": seq, "impl": {"outcome": o["outcome"], "k": o["k"], "invocations": o["used"],
                   "pre": o["pre"], "post": {k: v for k, v in o["post"].items() if k != "objective"}}, "model": mod, "request": req}
         fails = property_failures(spec, o, nat if o is not nat else None)
+        if second:      # the failed first call must leave no trace: the natural answer is required
+            if nat["outcome"] == "S" and o["outcome"] == "S" and o["k"] is not None and o["k"] < nat["k"]:
+                o["smaller_than_natural"] = True
+            elif (o["outcome"], o["k"]) != (nat["outcome"], nat["k"]):
+                fails.append(("second solve() on the same object after an inconclusive first run (%s) gave %s k=%s, natural answer %s k=%s" % (
+                    o["inject"]["first_call"], o["outcome"], o["k"], nat["outcome"], nat["k"]), None, "second"))
         ctx.count(eng, "property_evaluations")
         if o.get("smaller_than_natural"):
             ctx.count(eng, "aux_bound_overestimated_in_natural_run(C04/C15)")
@@ -750,9 +809,17 @@ def replay(ctx, body):
             return bool(bad) or rec["outs"] != body.get("impl_outputs")
         spec = rebuild_spec(fp, body["class"], body["input"], body["options"])
         nat = observe(tap, spec, {})
-        inj = {int(k): v for k, v in body["inject"].items()}
-        o = observe(tap, spec, inj, body.get("over_after"))
-        fails = property_failures(spec, o, nat if inj or body.get("over_after") else None)
+        if body.get("second_call"):
+            inj = {int(k): v for k, v in body["inject"]["first_call"].items()}
+            o1 = observe(tap, spec, inj, None)
+            o = observe(tap, spec, {}, None, again=o1)
+            fails = property_failures(spec, o, nat)
+            if (o["outcome"], o["k"]) != (nat["outcome"], nat["k"]) and not (o["outcome"] == "S" == nat["outcome"] and o["k"] < nat["k"]):
+                fails.append(("second solve() gave %s k=%s, natural answer %s k=%s" % (o["outcome"], o["k"], nat["outcome"], nat["k"]), None, "second"))
+        else:
+            inj = {int(k): v for k, v in body["inject"].items()}
+            o = observe(tap, spec, inj, body.get("over_after"))
+            fails = property_failures(spec, o, nat if inj or body.get("over_after") else None)
         print("impl now:", o["outcome"], "k =", o["k"], "invocations =", o["used"],
               "statuses =", [[e["tag"], e["native"], e["custom"]] for e in o["log"]])
         print("property failures:", [f[0] for f in fails])
